@@ -6,7 +6,8 @@
    `text_ok fx d = fx || (no_astral d && no_lone_cr d)`, which is vacuous for fx = true. *)
 From Coq Require Import List NArith Bool.
 From LH Require Import Base.Bytes Base.Res Base.Utf8 Model.TextSync Spec.LspText
-                       Proofs.TextSyncScan Proofs.TextSyncHistory.
+                       Proofs.TextSyncScan Proofs.TextSyncHistory
+                       Model.TextSyncUri Spec.LspTextUri Proofs.TextSyncUriKey Proofs.TextSyncUriHistory.
 Import ListNotations.
 Local Open Scope N_scope.
 
@@ -155,3 +156,156 @@ Example C02_spec_positions_example :
   positions [97; 128512; 13; 10; 98; 13; 99; 10] false 0 0 0 =
   [(0, 0, 0); (0, 1, 1); (0, 3, 2); (1, 0, 4); (1, 1, 5); (2, 0, 6); (2, 1, 7); (3, 0, 8)].
 Proof. vm_compute; reflexivity. Qed.
+
+(* ================================================================== documents are named by URIs
+   Model/TextSyncUri.v: every handler first turns the URI into the cache key (pathpre.VscodeURIToString: prefix
+   removed, percent-decoded, backslash -> slash); the cache is keyed by that key, so two URIs with one key share one
+   entry.  Variants: ux = false decodes with url.QueryUnescape ('+' -> ' '), ux = true with url.PathUnescape (repair
+   fixes/C02-uri-plus.diff); sx = false: didSave without text is a nil dereference, sx = true: it keeps the cached
+   text (repair fixes/C02-didsave-nil-text.diff).  Spec/LspTextUri.v: the client keeps one text per URI;
+   `canonical raw prefix u` = u is the prefix followed by a path in which the bytes of `raw` stand for themselves and
+   every other byte is %XX in upper-case hex (what a percent-encoder with unreserved set `raw` produces).
+   usync_statement fx ux sx prefix ns = the server runs the history without a fault, holds for every URI used in ns
+   exactly the client's text for that URI, and holds nothing under any other key. *)
+
+(* ------------------------------------------------------------------ full statement *)
+Definition C02_uri_sync_full (fx ux sx : bool) : Prop :=
+  forall raw prefix ns, forallb (canonical raw prefix) (uris ns) = true -> uconformant ux prefix ns = true ->
+    usync_statement fx ux sx prefix ns /\ ustale fx ux sx prefix ns = false.
+
+(* ------------------------------------------------------------------ the decode *)
+(* the repaired decode is injective on canonical URIs, whatever the client's unreserved set is *)
+Theorem C02_uri_key_injective : forall raw prefix u1 u2,
+  canonical raw prefix u1 = true -> canonical raw prefix u2 = true ->
+  uri_key true prefix u1 = uri_key true prefix u2 -> u1 = u2.
+Proof. exact key_injective_canonical. Qed.
+Print Assumptions C02_uri_key_injective.
+
+(* `canonical` is what an encoder produces: for every path (bytes, no backslash) the encoded URI is canonical and
+   the repaired decode gives the path back *)
+Theorem C02_uri_encode_canonical : forall raw prefix k,
+  raw_ok raw = true -> bytes_ok k = true -> no_bs k = true ->
+  canonical raw prefix (prefix ++ encode_path raw k) = true /\
+  uri_key true prefix (prefix ++ encode_path raw k) = k.
+Proof. exact encode_canonical. Qed.
+Print Assumptions C02_uri_encode_canonical.
+
+(* which prefix the server removes is decided once, by InitialRootURIAndPath(rootURI, rootPath) (init_prefix ux cur
+   rootURI rootPath = the prefix afterwards): for a root directory k (bytes, non-empty, no backslash) and the root URI
+   file:// ++ encoding of k, the repaired code finds "file://" - the prefix under which the keys of the documents are
+   their paths *)
+Theorem C02_uri_root_prefix : forall raw cur k,
+  raw_ok raw = true -> bytes_ok k = true -> no_bs k = true -> k <> [] ->
+  init_prefix true cur (prefix2 ++ encode_path raw k) k = prefix2.
+Proof. exact init_prefix_canonical. Qed.
+Print Assumptions C02_uri_root_prefix.
+
+(* before the repair a '+' in the root directory is enough to miss it (root /home/a+b, root URI as vscode-uri spells
+   it: file:///home/a%2Bb): the prefix stays "file:///" and every key loses its leading slash *)
+Theorem C02_uri_root_prefix_refuted :
+  let k := [47; 104; 111; 109; 101; 47; 97; 43; 98] in
+  prefix2 ++ encode_path raw_unreserved k = prefix2 ++ [47; 104; 111; 109; 101; 47; 97; 37; 50; 66; 98] /\
+  init_prefix false prefix3 (prefix2 ++ encode_path raw_unreserved k) k = prefix3 /\
+  init_prefix true prefix3 (prefix2 ++ encode_path raw_unreserved k) k = prefix2 /\
+  uri_key false prefix3 (prefix2 ++ encode_path raw_unreserved (k ++ [47; 109; 46; 108; 117; 97])) =
+    [104; 111; 109; 101; 47; 97; 43; 98; 47; 109; 46; 108; 117; 97] /\
+  (* and a root directory /w/100% (root URI file:///w/100%25): the root PATH is not a URI *)
+  init_prefix false prefix3 (prefix2 ++ encode_path raw_unreserved [47; 119; 47; 49; 48; 48; 37]) [47; 119; 47; 49; 48; 48; 37] = prefix3 /\
+  init_prefix true prefix3 (prefix2 ++ encode_path raw_unreserved [47; 119; 47; 49; 48; 48; 37]) [47; 119; 47; 49; 48; 48; 37] = prefix2.
+Proof. repeat split; vm_compute; reflexivity. Qed.
+Print Assumptions C02_uri_root_prefix_refuted.
+
+(* ------------------------------------------------------------------ histories: all variants, under the guards *)
+Theorem C02_uri_sync_history : forall fx ux sx prefix ns,
+  uconformant ux prefix ns = true -> uclass_ok fx ns = true -> save_ok sx ns = true ->
+  inj_on ux prefix (uris ns) = true ->
+  usync_statement fx ux sx prefix ns /\ ustale fx ux sx prefix ns = false.
+Proof. exact usync_history. Qed.
+Print Assumptions C02_uri_sync_history.
+
+(* ------------------------------------------------------------------ the repaired code meets the full statement *)
+Theorem C02_uri_sync_fixed : C02_uri_sync_full true true true.
+Proof. exact usync_history_fixed. Qed.
+Print Assumptions C02_uri_sync_fixed.
+
+(* ------------------------------------------------------------------ refuted for the code before the two repairs *)
+(* uri_plus = file:///dir/a+b.lua, uri_space = file:///dir/a%20b.lua: canonical (RFC 3986 pchar), different, one key
+   under QueryUnescape; plus_witness = open uri_plus "x", open uri_space "y": the text held for uri_plus is "y" *)
+Theorem C02_uri_plus_refuted :
+  canonical raw_pchar prefix2 uri_plus = true /\ canonical raw_pchar prefix2 uri_space = true /\
+  beq_bytes uri_plus uri_space = false /\
+  uri_key false prefix2 uri_plus = uri_key false prefix2 uri_space /\
+  uri_key true prefix2 uri_plus = [47; 100; 105; 114; 47; 97; 43; 98; 46; 108; 117; 97] /\
+  uri_key false prefix2 uri_plus = [47; 100; 105; 114; 47; 97; 32; 98; 46; 108; 117; 97] /\
+  uconformant false prefix2 plus_witness = true /\ inj_on false prefix2 (uris plus_witness) = false /\
+  userver_text true false true prefix2 plus_witness uri_plus = Some [121] /\
+  uclient_text plus_witness uri_plus = Some [120] /\
+  userver_text true true true prefix2 plus_witness uri_plus = uclient_text plus_witness uri_plus.
+Proof. repeat split; vm_compute; reflexivity. Qed.
+Print Assumptions C02_uri_plus_refuted.
+
+(* save_nil_witness = open uri_plus "x", didSave uri_plus without text *)
+Theorem C02_didsave_nil_refuted :
+  uconformant true prefix2 save_nil_witness = true /\ save_nil save_nil_witness = true /\
+  urun true true false prefix2 kempty (map enc_unote save_nil_witness) = Fault NilDeref /\
+  userver_text true true true prefix2 save_nil_witness uri_plus = uclient_text save_nil_witness uri_plus /\
+  uclient_text save_nil_witness uri_plus = Some [120].
+Proof. repeat split; vm_compute; reflexivity. Qed.
+Print Assumptions C02_didsave_nil_refuted.
+
+Theorem C02_uri_full_statements_refuted :
+  ~ C02_uri_sync_full true false true /\ ~ C02_uri_sync_full true true false.
+Proof.
+  split.
+  - intros H. destruct (H raw_pchar prefix2 plus_witness eq_refl eq_refl) as [(s & Hrun & Hs & _) _].
+    specialize (Hs uri_plus (or_introl eq_refl)). vm_compute in Hrun. injection Hrun as <-.
+    vm_compute in Hs. discriminate.
+  - intros H. destruct (H raw_pchar prefix2 save_nil_witness eq_refl eq_refl) as [(s & Hrun & _) _].
+    vm_compute in Hrun. discriminate.
+Qed.
+Print Assumptions C02_uri_full_statements_refuted.
+
+(* ------------------------------------------------------------------ the number-keyed model is an instance *)
+(* Model/TextSync.v (documents = numbers; the theorems above the line) is the URI-keyed model under any naming of
+   the numbers by URIs that the decode keeps apart (before the didSave repair) *)
+Theorem C02_number_model_refines : forall fx ux prefix name,
+  (forall d1 d2, uri_key ux prefix (name d1) = uri_key ux prefix (name d2) -> d1 = d2) ->
+  (forall d, is_lua d = is_lua_key (uri_key ux prefix (name d))) ->
+  forall ns,
+  match run fx empty_cache ns, urun fx ux false prefix kempty (map (lift_note name) ns) with
+  | Ok s', Ok ks' => forall d, ks' (uri_key ux prefix (name d)) = s' d
+  | Fault a, Fault b => a = b
+  | OutOfFuel, OutOfFuel => True
+  | _, _ => False
+  end.
+Proof. exact run_refines_empty. Qed.
+Print Assumptions C02_number_model_refines.
+
+(* ------------------------------------------------------------------ the guards are satisfiable by non-trivial input *)
+(* file:///w/a+b.lua, file:///w/a%20b.lua, file:///w/%E4%B8%AD.lua; two documents open at once whose names differ
+   only in '+' / %20, a range edit with a CJK character, didSave without text, a full replacement, close, didSave
+   with text *)
+Example C02_uri_guard_inhabited :
+  let w := prefix2 ++ [47; 119; 47] in
+  let u1 := w ++ [97; 43; 98; 46; 108; 117; 97] in
+  let u2 := w ++ [97; 37; 50; 48; 98; 46; 108; 117; 97] in
+  let u3 := w ++ [37; 69; 52; 37; 66; 56; 37; 65; 68; 46; 108; 117; 97] in
+  let ns := [UOpen u1 [120; 61; 49]; UOpen u2 [121]; UChange u1 [ins 0 3 [20013]]; USave u1 None;
+             UOpen u3 []; UChange u2 [mkchange None 0 [122; 13; 10]]; UClose u2; USave u3 (Some [])] in
+  forallb (canonical raw_pchar prefix2) (uris ns) = true /\ uconformant true prefix2 ns = true /\
+  inj_on true prefix2 (uris ns) = true /\ inj_on false prefix2 (uris ns) = false /\ save_nil ns = true /\
+  uri_key true prefix2 u3 = [47; 119; 47; 228; 184; 173; 46; 108; 117; 97] /\
+  uclient_text ns u1 = Some [120; 61; 49; 228; 184; 173] /\
+  userver_text true true true prefix2 ns u1 = uclient_text ns u1 /\
+  userver_text true true true prefix2 ns u2 = None /\ userver_text true true true prefix2 ns u3 = Some [].
+Proof. repeat split; vm_compute; reflexivity. Qed.
+
+(* the vscode-uri spelling of the same first name (only unreserved characters raw: '+' is %2B) is canonical for
+   raw_unreserved; the two raw sets do not mix: a+b.lua is not canonical for raw_unreserved *)
+Example C02_uri_canonical_vscode :
+  let u := prefix2 ++ [47; 119; 47; 97; 37; 50; 66; 98; 46; 108; 117; 97] in
+  canonical raw_unreserved prefix2 u = true /\ canonical raw_pchar prefix2 u = false /\
+  canonical raw_unreserved prefix2 uri_plus = false /\
+  uri_key true prefix2 u = [47; 119; 47; 97; 43; 98; 46; 108; 117; 97] /\
+  prefix2 ++ encode_path raw_unreserved [47; 119; 47; 97; 43; 98; 46; 108; 117; 97] = u.
+Proof. repeat split; vm_compute; reflexivity. Qed.
